@@ -33,10 +33,10 @@ func (c *cycle) next() string {
 	return v
 }
 
-var seqList = []string{"kill", "soft", "hard:missing", "killrerun", "badsig", "hard:empty", "soft:symlink", "hard:ptmp", "nocp",
+var seqList = []string{"kill", "soft", "hard:missing", "hard:missing-names", "killrerun", "badsig", "hard:missing-data", "hard:empty", "soft:symlink", "hard:ptmp", "nocp",
 	"hard:pfile", "kill", "hard:badwidth", "soft", "hard:highlevel", "hard:tiledot", "killrerun"}
-var sparseCycle = &cycle{list: []string{"plain", "hard:empty", "kill", "soft:symlink", "hard:missing", "killrerun", "badsig", "soft", "hard:ptmp",
-	"plain", "hard:badwidth", "kill", "hard:pfile", "soft:symlink", "hard:highlevel", "hard:tiledot"}}
+var sparseCycle = &cycle{list: []string{"plain", "hard:empty", "kill", "soft:symlink", "hard:missing", "killrerun", "badsig", "soft", "hard:ptmp", "hard:missing-names",
+	"plain", "hard:missing-hash", "hard:badwidth", "kill", "hard:pfile", "soft:symlink", "hard:highlevel", "hard:tiledot"}}
 var mirrorCycle = &cycle{list: []string{"plain", "kill", "soft", "hard:missing", "killrerun", "hard:empty", "plain", "hard:ptmp", "soft:symlink", "kill", "hard:badwidth"}}
 
 type planner struct {
